@@ -103,7 +103,12 @@ def gen_enum(rng, nm):
         vs = [adef.mk_variant("Va"), adef.mk_variant("Vb", value="catch_all")]
     for v in vs:
         v["cfg"] = pick_cfg(rng, 0.35)
-    return adef.mk_enum(nm.fresh("E"), vs, use_try=(style == "try"))
+    name = nm.fresh("E")
+    if rng.random() < 0.3:
+        # written in another case than the PascalCase it is normalised to: the rename happens AFTER the cfg propagation
+        # and must not touch the gate (seed C18-10 rebuilt a renamed enum with a default cfg)
+        name = re.sub(r"(?<!^)(?=[A-Z])", "_", name).lower() if rng.random() < 0.7 else name[0].lower() + name[1:]
+    return adef.mk_enum(name, vs, use_try=(style == "try"))
 
 
 def gen_fields(rng, nm, obj_cfg, prefix):
@@ -431,6 +436,11 @@ def observe(facts, info):
     return obs
 
 
+def _pascal(n):
+    """PascalCase of the enum names this module writes (Pascal already, snake_case, or lower-case first letter)"""
+    return "".join(w[:1].upper() + w[1:] for w in n.split("_") if w)
+
+
 def parse_listing(s, with_raw):
     """'key@a|b@a|b|c[@raw];...' -> ordered dict key -> (attr, eff, raw)"""
     out = collections.OrderedDict()
@@ -442,12 +452,13 @@ def parse_listing(s, with_raw):
         cols = part.split("@")
         key = cols[0]
         if key.startswith("enum:"):
-            n = key[5:]
+            n = _pascal(key[5:])        # the model lists the enum under the name as written; it is emitted under its PascalCase form
             occ[n] += 1
             cur[n] = n if occ[n] == 1 else "%s#%d" % (n, occ[n])
             key = "enum:" + cur[n]
         elif key.startswith("variant:"):
             n, v = key[8:].split(".", 1)
+            n = _pascal(n)
             key = "variant:%s.%s" % (cur.get(n, n), v)
         attr = canon_atoms([a for a in cols[1].split("|") if a])
         eff = attr if cols[2] == "=" else canon_atoms([a for a in cols[2].split("|") if a])
